@@ -436,6 +436,173 @@ class SimplifyTVUnit:
                 rec["id"], rec["budget"], x["status"], x["problems"][:2], len(vecs)))
 
 
+class BytecodeTVUnit:
+    """C15: Bytecode::new output, decoded by an interpreter written from the
+    format documentation only, computes the register tape."""
+
+    name = "tv:bytecode"
+
+    def streams(self, tier):
+        s = str(seed())
+        if tier == "quick":
+            return [["alloc", "1", "4", "3,255"], ["variants", "3,255"], ["alloc", "6", "6", "3", "4", s, "spill"]]
+        return [["alloc", "1", "5", "3,4,255"], ["variants", "3,4,255"], ["alloc", "6", "6", "3", "1", "0", "spill"],
+                ["alloc", "7", "7", "3", "60", s, "spill"]]
+
+    def run(self, prop, tier, only=None):
+        import subprocess
+        r = UnitResult(self.name)
+        r.functions = ["fidget_bytecode::Bytecode::new::<N>", "fidget_bytecode::iter_ops", "<BytecodeOp as From<RegOp>>::from",
+                       "fidget_core::compiler::RegTape::repack_map"]
+        r.assumptions = ["the decoder in tv_engine.decode_bytecode follows the module documentation only (opcode numbers from iter_ops, "
+                         "0xFF = immediate, Mem direction flags) and is the 'independent interpreter' of the property",
+                         "opcodes are uninterpreted functions of the base opcode; Add/Mul commutative (the format drops the operand "
+                         "position of immediates for commutative-by-construction variants only)"]
+        if not T.build_tvdump():
+            r.inconclusive.append("tvdump build failed")
+            return r
+        streams = self.streams(tier)
+        r.bounds = {"tapes": "register tapes produced by the real allocator for the ALLOC-TV program space at N in {3,4,255} "
+                    "(N=3 forces Load/Store) plus the all-variant programs", "streams": [" ".join(a) for a in streams]}
+        recs = []
+        for args in streams:
+            for rec in T.stream_records(args):
+                if rec["reg"] is not None and rec["n"] >= 3:
+                    recs.append(rec)
+        # run the real Bytecode::new on every tape
+        req = "\n".join(T.fmt_req(rec) for rec in recs) + "\n"
+        p = subprocess.run([T.TVDUMP, "bytecode"], input=req, stdout=subprocess.PIPE, text=True)
+        lines = [json.loads(l) for l in p.stdout.splitlines() if l.strip()]
+        optable = {}
+        for item in lines[0]["optable"]:
+            k, v = item.split("=")
+            optable[k] = int(v)
+        bcs = lines[1:]
+        if len(bcs) != len(recs):
+            r.inconclusive.append("tvdump bytecode returned %d records for %d requests" % (len(bcs), len(recs)))
+            return r
+        # every bytecode opcode must be known to the documentation-based decoder
+        unk = [k for k in optable if k not in T.BC_DOC_BINARY | T.BC_DOC_UNARY | {"Output", "Input", "Copy", "Mem"}]
+        if unk:
+            r.inconclusive.append("bytecode opcodes unknown to the decoder: %s" % unk)
+        items = [(rec, bc, optable) for rec, bc in zip(recs, bcs)]
+        cand = []
+        with mp.Pool(NPROC) as pool:
+            chunks = list(T.chunks(items, 300))
+            for ch, (out, secs, nq) in zip(chunks, pool.imap(T.work_bytecode, chunks)):
+                r.solver_s += secs
+                r.queries += nq
+                for (rec, bc, _), x in zip(ch, out):
+                    r.obligations += 1
+                    r.extra["programs"] = r.extra.get("programs", 0) + 1
+                    if x["status"] == "unsat" and not x["problems"]:
+                        r.discharged += 1
+                        if x.get("has_mem"):
+                            r.nontrivial += 1
+                        if len(r.samples) < 3 and x.get("has_mem"):
+                            r.samples.append({"n": rec["n"], "reg": rec["reg"], "words": ["0x%08x" % w for w in bc["words"]],
+                                              "reg_count": bc["reg_count"], "mem_count": bc["mem_count"],
+                                              "verdict": "unsat: decoded bytecode == register tape for all inputs"})
+                    elif x["status"] in ("sat", "fail") or x["problems"]:
+                        cand.append((rec, bc, x))
+                    else:
+                        r.inconclusive.append("tape %d: solver answered %s" % (rec["id"], x["status"]))
+        r.extra["disagreements_checked"] = 0
+        seen = set()
+        for rec, bc, x in cand[:MAX_REPLAYS * 4]:
+            r.extra["disagreements_checked"] += 1
+            # replay: concrete interpretation of the decoded program vs the real VM evaluator
+            ok, detail = bytecode_native_replay(rec, bc, optable, x)
+            key = "tv:bytecode:%s" % (";".join(sorted(set(p.split(" ")[0] for p in x["problems"]))) or "value")
+            if not ok:
+                path = save_replay(prop, "bytecode_%d_n%d" % (rec["id"], rec["n"]),
+                                   {"engine": "tv", "kind": "bytecode", "record": rec, "bytecode": bc, "optable": optable, "detail": detail})
+                if key not in seen:
+                    seen.add(key)
+                    r.findings.append(Finding(prop, key, "bytecode of tape %s (N=%d): %s" % (rec["reg"], rec["n"], detail), {}, path))
+            else:
+                r.inconclusive.append("tape %d: solver reports %s %s but concrete replay agrees" % (rec["id"], x["status"], x["problems"][:2]))
+        return r
+
+
+def bytecode_native_replay(rec, bc, optable, x):
+    """Concrete replay: format facts are re-checked on the actual words; value
+    disagreements are confirmed by interpreting the decoded program with
+    distinguishable concrete stand-ins for the opcodes (each opcode maps its
+    operands to a fresh hash), against the same interpretation of the tape."""
+    if "words" not in bc:
+        return False, "Bytecode::new failed: %s" % (bc.get("error") or bc.get("panic"))
+    prog, problems = T.decode_bytecode(bc["words"], optable, bc["reg_count"], bc["mem_count"])
+    if problems:
+        return False, "; ".join(problems[:3])
+    import hashlib
+
+    def h(*a):
+        return int(hashlib.sha256(repr(a).encode()).hexdigest()[:8], 16)
+
+    tab = T.semtable()
+
+    def base_apply(base, a, b=None):
+        if b is None:
+            return h(base, a)
+        if base in T.COMMUTATIVE_UF:
+            a, b = sorted((a, b), key=repr)
+        return h(base, a, b)
+
+    for trial in range(4):
+        xin = {i: h("in", trial, i) for i in range(8)}
+        # tape
+        slots = {}
+        outs_t = {}
+        for line in rec["reg"]:
+            t = line.split()
+            c = T.op_class(t[0])
+            if c == "Output":
+                outs_t[int(t[2])] = slots.get(int(t[1]))
+            elif c == "Input":
+                slots[int(t[1])] = xin[int(t[2])]
+            elif c == "CopyImm":
+                slots[int(t[1])] = ("k", T.bv(int(t[2], 16)))
+            elif c == "CopyReg":
+                slots[int(t[1])] = slots.get(int(t[2]))
+            elif c == "Load":
+                slots[int(t[1])] = slots.get(int(t[2]))
+            elif c == "Store":
+                slots[int(t[2])] = slots.get(int(t[1]))
+            else:
+                _, base, lhs = tab[t[0]]
+                if c == "un":
+                    slots[int(t[1])] = base_apply(base, slots.get(int(t[2])))
+                elif c == "imm":
+                    a, k = slots.get(int(t[2])), ("k", T.bv(int(t[3], 16)))
+                    slots[int(t[1])] = base_apply(base, k, a) if lhs else base_apply(base, a, k)
+                else:
+                    slots[int(t[1])] = base_apply(base, slots.get(int(t[2])), slots.get(int(t[3])))
+        regs, mem, outs_b = {}, {}, {}
+        for ins in prog:
+            k = ins[0]
+            if k == "output":
+                outs_b[ins[2]] = regs.get(ins[1])
+            elif k == "input":
+                regs[ins[1]] = xin[ins[2]]
+            elif k == "const":
+                regs[ins[1]] = ("k", T.bv(ins[2]))
+            elif k == "copy":
+                regs[ins[1]] = regs.get(ins[2])
+            elif k == "load":
+                regs[ins[1]] = mem.get(ins[2])
+            elif k == "store":
+                mem[ins[2]] = regs.get(ins[1])
+            elif k == "un":
+                regs[ins[2]] = base_apply(ins[1], regs.get(ins[3]))
+            else:
+                f = lambda o: ("k", T.bv(o[1])) if o[0] == "imm" else regs.get(o[1])
+                regs[ins[2]] = base_apply(ins[1], f(ins[3]), f(ins[4]))
+        if outs_t != outs_b:
+            return False, "decoded bytecode computes different outputs than the tape (concrete interpretation)"
+    return True, ""
+
+
 def graph_signature(rec):
     """Role-based identifier of a flatten disagreement: the set of
     (opcode, lhs kind, rhs kind) of the choice/commutative clauses that have a
